@@ -15,13 +15,17 @@ pub fn dflt<T: Model>(seed: u64) -> T {
 }
 
 pub fn dflt_val<T: Model>(seed: u64) -> Val {
-    let ctx = GenCtx { max_len: 3, allow_large: false, max_depth: 2, tz_names: tz_names(), ..GenCtx::default() };
+    // cheap on purpose: default expressions run inside the library's decode call and are charged to its allocation budget
+    let ctx = GenCtx { max_len: 3, allow_large: false, max_depth: 2, tz_names: tz_names(), encodable: true };
     gen_val(&T::ty(), &mut Rng::new(seed ^ 0x5eed_d0d0), &ctx)
 }
 
-/// every time-zone name chrono-tz knows
-pub fn tz_names() -> Vec<String> {
-    chrono_tz::TZ_VARIANTS.iter().map(|t| t.name().to_string()).collect()
+/// every time-zone name chrono-tz knows (built once)
+pub fn tz_names() -> std::sync::Arc<Vec<String>> {
+    static NAMES: std::sync::OnceLock<std::sync::Arc<Vec<String>>> = std::sync::OnceLock::new();
+    NAMES
+        .get_or_init(|| std::sync::Arc::new(chrono_tz::TZ_VARIANTS.iter().map(|t| t.name().to_string()).collect()))
+        .clone()
 }
 
 pub struct Registry {
